@@ -235,7 +235,7 @@ def c09_streams(rng, tier, budget):
             pm = st.pkl(m)
             st.obs_all(pm, C09_OBS)
             st.cmp(m, pm)
-    for s in ["foo://:80/", "//:77", "foo://u@/", "//@:?#", "//@", "//:", "http://[v1.a:b]/", "http://[[::1]/", "http://[::1]]/", "x://[::1]a/", "//h:0", "http://H/"]:
+    for s in ["http://[v1.fe]/p", "svn://[vF.host-name_1]", "//[v1.x]", "http://[v1.fe]:81/", "http://u@[v1.fe]/", "foo://:80/", "//:77", "foo://u@/", "//@:?#", "//@", "//:", "http://[v1.a:b]/", "http://[[::1]/", "http://[::1]]/", "x://[::1]a/", "//h:0", "http://H/"]:
         h = st.new(s)
         st.obs_all(h, C09_OBS)
         p = st.pkl(h)
@@ -246,7 +246,7 @@ def c09_streams(rng, tier, budget):
     # the constructor pre-computes depends on the shape ('mailto:', 'foo:?x=1', 'x://', '//h', 'p?#'), not on the texts
     st2 = Stream()
     for sc in ("", "x:", "mailto:", "http:"):
-        for au in (None, "//", "//h", "//u@h:81", "//[::1]", "//H.", "//:81"):
+        for au in (None, "//", "//h", "//u@h:81", "//[::1]", "//H.", "//:81", "//[v1.fe]"):
             for pa in ("", "/", "p", "/p/q"):
                 if au not in (None,) and pa == "p":
                     continue
@@ -668,6 +668,16 @@ C12_OBS = ["query", "raw_query_string", "str"]
 
 def c12_streams(rng, tier, budget):
     st = Stream()
+    # numbers that compare EQUAL but render differently, one after the other in the same process (a rendering memoised by value would
+    # confuse them): 0.0 / -0.0 / 0 / False-like, 1 / 1.0, 1e16 / 10**16, in every argument form
+    from urlgen import qarg as _qa
+    b0 = st.new("http://h/p?z=1")
+    for vals in ([0.0, -0.0, 0.0, 0, -0.0], [1, 1.0, 1], [10 ** 16, 1e16, 10 ** 16], [-0.0, 0.0], [1.5, 1.50]):
+        for kind in ("M", "P", "K", "D"):
+            for x in vals:
+                for nm in ("with_query", "update_query", "extend_query"):
+                    st.obs_all(st.mod(b0, nm, _qa(kind, [("a", x)])), C12_OBS)
+            st.obs_all(st.mod(b0, "with_query", _qa("M", [("a", list(vals))])), C12_OBS)
     n = int((400 if tier == "quick" else 6000) * budget)
     qs = [x for x in urlgen.QUERIES if x is not None]
     for _ in range(n):
